@@ -85,7 +85,7 @@ TIERS = {
         dev=((10, 2), (10**9, 1)),
     ),
     "thorough": dict(
-        schedules=[((0.0,), (1, 2, 3), (0.5, 1.0, 0.2, 3.0)), ((0.0,), (4,), (0.5, 0.2)),
+        schedules=[((0.0,), (1, 2), (0.5, 1.0, 0.2, 3.0)), ((0.0,), (3,), (0.5, 0.2, 3.0)), ((0.0,), (4,), (0.5, 0.2)),
                    ((1.0,), (1, 2), (0.5, 1.0, 0.2, 3.0))],
         fracs=(1.0, 0.5, 0.25, 0.2),
         dtmm=("wide", "narrow", "tight", "none"),
@@ -101,7 +101,7 @@ BOUNDS = {
     "{(dt/8,4dt),(dt/2,dt),(dt,first interval),None}; relax {(0.5,2),(0.7,1.3)}; (recomp_factor,recomp_max) "
     "{(0.5,2),(0.25,1)}; constant_dt on compatible schedules; H: all answer sequences up to length 6 (or "
     "closure); D: a run with n solver calls gets one more deviation (every later placement, every kind) while it has < 2 (n <= 10) or < 1 (n > 10) deviations; all runs to the end",
-    "thorough": "schedules: start 0 x 1-3 intervals from {0.5,1,0.2,3}, "
+    "thorough": "schedules: start 0 x 1-2 intervals from {0.5,1,0.2,3}, start 0 x 3 intervals from {0.5,0.2,3}, "
     "start 0 x 4 intervals from {0.5,0.2}, start 1 x 1-2 intervals from {0.5,1,0.2,3}; dt_init = first interval x "
     "{1,1/2,1/4,1/5}; dt_min_max as quick; relax {(0.5,2),(0.7,1.3),(0.9,1.1)}; (recomp_factor,recomp_max) "
     "{(0.5,2),(0.25,1),(0.5,3)}; constant_dt; H: all answer sequences up to length 7 (or closure); D: a run with n solver "
